@@ -186,3 +186,64 @@ def grids(draw, coal_rows, m, regular=None, samp=()):
         if not clash([p]):
             pts.add(p)
     return {"grid": sorted(pts)}
+
+
+def node_order(g):
+    """birth labels of the internal nodes in torchtree's node-index order, and children"""
+    newick, _, children = tree_of(g)
+    n = g["n"]
+    post = []
+
+    def walk(node):
+        if node >= n:
+            walk(children[node][0])
+            walk(children[node][1])
+            post.append(node)
+
+    walk(2 * n - 2)
+    return post, children
+
+
+def heights_from_ratios(g, ratios, root_height):
+    """documented ratio parameterisation (ReparameterizedTimeTreeModel): ratios are indexed by
+    internal node index - n (root excluded, it is the last); height = bound + ratio * (parent
+    height - bound), bound = oldest tip below the node. Returns heights in node-index order."""
+    n = g["n"]
+    post, children = node_order(g)
+    idx = {b: i for i, b in enumerate(post)}  # birth label -> node index - n
+    bound = {}
+
+    def bnd(node):
+        if node < n:
+            return float(g["samp"][node])
+        if node not in bound:
+            bound[node] = max(bnd(children[node][0]), bnd(children[node][1]))
+        return bound[node]
+
+    root = 2 * n - 2
+    h = {root: float(root_height)}
+    if not h[root] > bnd(root):
+        raise ValueError("root height below the oldest tip")
+
+    def down(node):
+        for ch in children[node]:
+            if ch >= n:
+                b = bnd(ch)
+                h[ch] = b + float(ratios[idx[ch]]) * (h[node] - b)
+                down(ch)
+
+    down(root)
+    return [h[b] for b in post]
+
+
+def ratio_tree_spec(g, ratios_rows, root_rows, batched, id_="tree"):
+    """ReparameterizedTimeTreeModel JSON (ratios / root_height parameters `tree.ratios`, `tree.root_height`)"""
+    newick, _, _ = tree_of(g)
+    return {
+        "id": id_,
+        "type": "ReparameterizedTimeTreeModel",
+        "newick": newick,
+        "ratios": {"id": id_ + ".ratios", "type": "Parameter", "tensor": ratios_rows if batched else ratios_rows[0]},
+        "root_height": {"id": id_ + ".root_height", "type": "Parameter", "tensor": [[r] for r in root_rows] if batched else [root_rows[0]]},
+        "taxa": taxa_spec(g, id_ + ".taxa"),
+    }
